@@ -13,7 +13,7 @@ m = {
  "setup_cmd": "bin/setup",
  "hooks": {"guard": "verif",
            "enable": "go build -tags verif -overlay <generated json>: add-only accessor files from /verif/hooks (and, for the concurrent properties, instrumented copies generated from /repo's current files) are mapped into /repo's packages at build time; nothing is committed to /repo for instrumentation",
-           "baseline_off_cmd": "cd /repo && go test -vet=off -count=1 ./...", "source_commits": [], "add_only": True},
+           "baseline_off_cmd": "cd /repo && go test -mod=mod -json -vet=off -count=1 -timeout 25m ./...   # the guard is a build tag + overlay that only /verif's own builds pass, so the plain baseline command (BASELINE.json cmd) runs the code with hooks off; nothing in /repo refers to the tag", "source_commits": [], "add_only": True},
  "engines": [{"name": "coq", "path": "coq", "serves_properties": [i for i in ids if i in src["checks"]],
               "kind_free_text": "Coq 8.16.1 executable models + theorems (coq_makefile full .vo build), extraction to OCaml (ocaml/modelrun), Go differential/lock-step harness (harness/), orchestrated by bin/check (checks/*.py)"}],
  "checks": [], "not_applicable": [],
